@@ -331,6 +331,12 @@ def canonical (bs : List UInt8) : Bool :=
   let cs := chars bs
   Token.printInt (Token.parseInt64 cs) == cs
 
+def showPart : Option Token.Partitioner → String
+  | some .murmur3 => "Murmur3Partitioner"
+  | some .ordered => "OrderedPartitioner"
+  | some .random => "RandomPartitioner"
+  | none => "err"
+
 /-- ops (answer is compared with the implementation's answer by the check driver):
   murmur <hex>            → signed decimal int64 token
   random <hex16 digest>   → decimal token
@@ -344,7 +350,9 @@ def canonical (bs : List UInt8) : Bool :=
                             several keyspaces and tables (see `rkn`); rknx: outcomes the theorems do not cover
   lessm <a> <b>           → Less of two VALID (canonical decimal int64) Murmur3 token strings; lessmx: any strings
   hlessm <k1> <k2>        → Less of the Murmur3 tokens of two keys; hlessr <d1> <k1> <d2> <k2>: Random
-  ringsort m|r|o …        → the token ring order -/
+  ringsort m|r|o …        → the token ring order
+  parser <string>         → RandomPartitioner ParseString().String() of a canonical decimal integer string; parserx: sign + digits
+  part <name>             → Name() of the partitioner newTokenRing selects for the class name, or err; partx: other names -/
 def stepU (ws : List String) : String :=
   match ws with
   | ["murmur", h] => match parseHex h with
@@ -363,9 +371,20 @@ def stepU (ws : List String) : String :=
       | some bs => toString (Token.parseInt64 (bs.map (fun b => Char.ofNat b.toNat)))
       | none => "bad-op"
   | ["parser", h] => match parseHex h with
-      | some bs => match Token.parseNat (bs.map (fun b => Char.ofNat b.toNat)) with
+      | some bs => match Token.parseBig (chars bs) with
+        | some n => if Token.printInt n == chars bs then toString n else "noncanonical"
+        | none => "undefined"
+      | none => "bad-op"
+  | ["parserx", h] => match parseHex h with
+      | some bs => match Token.parseBig (chars bs) with
         | some n => toString n
         | none => "undefined"
+      | none => "bad-op"
+  | ["part", h] => match parseHex h with
+      | some bs => showPart (Token.selectPartitioner (chars bs))
+      | none => "bad-op"
+  | ["partx", h] => match parseHex h with
+      | some bs => showPart (Token.selectPartitioner (chars bs))
       | none => "bad-op"
   | ["lessm", a, b] => match parseHex a, parseHex b with
       | some x, some y =>
@@ -390,7 +409,7 @@ def stepU (ws : List String) : String :=
       | some x, some y => toString (decide (Token.parseInt64 (x.map (fun b => Char.ofNat b.toNat)) < Token.parseInt64 (y.map (fun b => Char.ofNat b.toNat))))
       | _, _ => "bad-op"
   | ["lessr", a, b] => match parseHex a, parseHex b with
-      | some x, some y => match Token.parseNat (x.map (fun b => Char.ofNat b.toNat)), Token.parseNat (y.map (fun b => Char.ofNat b.toNat)) with
+      | some x, some y => match Token.parseBig (chars x), Token.parseBig (chars y) with
         | some m, some n => toString (decide (m < n))
         | _, _ => "undefined"
       | _, _ => "bad-op"
